@@ -120,6 +120,24 @@ func runWalk(c *Ctx) {
 				// (2) v.Value = prev.Value with prev = path[i-1] asserted as typed output, i > 0
 				if src, ok := core.AsFieldLoad(st.Val); ok && src.Owner == kinds.Out && src.Field == "Value" && (fr.Owner == kinds.Value || fr.Owner == kinds.Out) {
 					prevOK, posIdx := false, false
+					// one-level helper form: r, ok := prev(path, idx) with ok guarding the store
+					if e, ok := src.Base.(*ssa.Extract); ok && e.Index == 0 {
+						if hc, ok := e.Tuple.(*ssa.Call); ok && c.isPrevTypedOutputHelper(hc.Common().StaticCallee(), kinds.Out) && len(hc.Common().Args) == 2 {
+							if cur := assertOf(fr.Base); cur != nil {
+								if cld, ok := cur.X.(*ssa.UnOp); ok {
+									if cia, ok := cld.X.(*ssa.IndexAddr); ok && cia.X == hc.Common().Args[0] && cia.Index == hc.Common().Args[1] {
+										for _, l := range lits {
+											if l.Kind == "bool" && l.Pol {
+												if e2, ok := l.Of.(*ssa.Extract); ok && e2.Tuple == ssa.Value(hc) && e2.Index == 1 {
+													prevOK, posIdx = true, true
+												}
+											}
+										}
+									}
+								}
+							}
+						}
+					}
 					if ta := assertOf(src.Base); ta != nil {
 						if ld, ok := ta.X.(*ssa.UnOp); ok {
 							if ia, ok := ld.X.(*ssa.IndexAddr); ok {
@@ -436,4 +454,56 @@ func vertexLiterals(c *Ctx, f *ssa.Function) map[string]string {
 		}
 	})
 	return out
+}
+
+// isPrevTypedOutputHelper: h(path []Vertex, idx int) (*typedOut, bool) whose every return with a possibly-true
+// second result yields path[idx-1] asserted to the typed-output kind, reached only when idx > 0.
+func (c *Ctx) isPrevTypedOutputHelper(h *ssa.Function, outKind string) bool {
+	if h == nil || !c.P.InTarget(h) || len(h.Params) != 2 || h.Signature.Results().Len() != 2 {
+		return false
+	}
+	seenAssert := false
+	for _, r := range core.Returns(h) {
+		if k, ok := r.Results[1].(*ssa.Const); ok && k.Value != nil && k.Value.ExactString() == "false" {
+			continue
+		}
+		e1, ok1 := r.Results[1].(*ssa.Extract)
+		e0, ok0 := r.Results[0].(*ssa.Extract)
+		if !ok0 || !ok1 || e0.Tuple != e1.Tuple {
+			return false
+		}
+		ta, ok := e0.Tuple.(*ssa.TypeAssert)
+		if !ok || core.NamedOf(ta.AssertedType) != outKind {
+			return false
+		}
+		ld, ok := ta.X.(*ssa.UnOp)
+		if !ok {
+			return false
+		}
+		ia, ok := ld.X.(*ssa.IndexAddr)
+		if !ok || ia.X != ssa.Value(h.Params[0]) {
+			return false
+		}
+		b, ok := ia.Index.(*ssa.BinOp)
+		if !ok || b.Op != token.SUB || b.X != ssa.Value(h.Params[1]) {
+			return false
+		}
+		if k, ok := core.ConstInt(b.Y); !ok || k != 1 {
+			return false
+		}
+		// idx > 0 on this path
+		pos := false
+		for _, l := range core.Lits(core.Guards(r.Block())) {
+			if l.Kind == "cmp" && l.X == ssa.Value(h.Params[1]) {
+				if k, ok := core.ConstInt(l.Y); ok && k == 0 && ((l.Op == token.GTR && l.Pol) || (l.Op == token.LEQ && !l.Pol)) {
+					pos = true
+				}
+			}
+		}
+		if !pos {
+			return false
+		}
+		seenAssert = true
+	}
+	return seenAssert
 }
